@@ -53,6 +53,10 @@ type StuckReport struct {
 	Reason string
 	// Dump is the second goroutine dump.
 	Dump string
+	// Relevant: stacks of the unfinished operation goroutines and of every
+	// goroutine that runs bio-rd code and is not parked in a channel
+	// receive/select (those are idle workers).
+	Relevant string
 }
 
 // Sig renders the blocked frames as one signature string.
@@ -128,6 +132,7 @@ type Goroutine struct {
 	Files  []string // file:line per frame
 	IsOp   bool     // carries the opTrampoline marker
 	Header string
+	Raw    string
 }
 
 var goHdr = regexp.MustCompile(`^goroutine (\d+) \[([^\]]*)\]:`)
@@ -144,7 +149,7 @@ func ParseDump(d string) []*Goroutine {
 		if m == nil {
 			continue
 		}
-		g := &Goroutine{Header: lines[0]}
+		g := &Goroutine{Header: lines[0], Raw: strings.TrimSpace(blk)}
 		g.ID, _ = strconv.Atoi(m[1])
 		g.State = m[2]
 		if i := strings.Index(g.State, ","); i >= 0 {
@@ -175,6 +180,15 @@ func ParseDump(d string) []*Goroutine {
 
 func blockedState(s string) bool {
 	for _, p := range []string{"sync.Mutex.Lock", "sync.RWMutex.RLock", "sync.RWMutex.Lock", "semacquire", "chan send", "chan receive", "select", "sync.WaitGroup.Wait", "sync.Cond.Wait"} {
+		if strings.HasPrefix(s, p) {
+			return true
+		}
+	}
+	return false
+}
+
+func mutexState(s string) bool {
+	for _, p := range []string{"sync.Mutex.Lock", "sync.RWMutex.RLock", "sync.RWMutex.Lock", "semacquire"} {
 		if strings.HasPrefix(s, p) {
 			return true
 		}
@@ -223,7 +237,7 @@ func (g *Goroutine) key() string {
 
 func diagnose(dones []<-chan struct{}, gap time.Duration) *StuckReport {
 	d1 := allStacks()
-	reason := ""
+	reason, relevant := "", ""
 	for attempt := 0; attempt < 3; attempt++ {
 		time.Sleep(gap)
 		if allDone(dones) {
@@ -235,9 +249,10 @@ func diagnose(dones []<-chan struct{}, gap time.Duration) *StuckReport {
 			return rep
 		}
 		reason = rep.Reason
+		relevant = rep.Relevant
 		d1 = d2
 	}
-	return &StuckReport{Reason: "unconfirmed after 3 dump pairs: " + reason, Dump: d1}
+	return &StuckReport{Reason: "unconfirmed after 3 dump pairs: " + reason, Dump: d1, Relevant: relevant}
 }
 
 // CompareDumps applies the deadlock rule to two dumps of the same process.
@@ -249,8 +264,34 @@ func CompareDumps(d1, d2 string) *StuckReport {
 	rep := &StuckReport{Dump: d2}
 	frames := map[string]struct{}{}
 	nOps := 0
-	for _, g := range ParseDump(d2) {
+	gs2 := ParseDump(d2)
+	var rel strings.Builder
+	for _, g := range gs2 {
+		if g.IsOp {
+			rel.WriteString(g.Raw + "\n\n")
+		}
+	}
+	for _, g := range gs2 {
+		if g.IsOp || strings.HasPrefix(g.State, "chan receive") || strings.HasPrefix(g.State, "select") {
+			continue
+		}
+		for i, fn := range g.Funcs {
+			if IsBioFrame(fn, g.Files[i]) {
+				rel.WriteString(g.Raw + "\n\n")
+				break
+			}
+		}
+	}
+	rep.Relevant = rel.String()
+	for _, g := range gs2 {
 		if !g.IsOp {
+			// a goroutine of the code under test (not started by the harness) parked in a mutex in both
+			// dumps is part of the picture; idle channel waits are not
+			if p := g1[g.ID]; p != nil && mutexState(g.State) && p.key() == g.key() {
+				if f, bio := g.parkedIn(); bio {
+					frames[f] = struct{}{}
+				}
+			}
 			continue
 		}
 		nOps++
